@@ -34,6 +34,10 @@ type c06Params struct {
 	// the server reads with one-second deadlines and simply tries again after a timeout
 	EOFJoin bool `json:"eof_join,omitempty"`
 	Hold    int  `json:"hold,omitempty"`
+	// Poll: before it writes, the client looks for early data from the server with a 100 ms read deadline (there is
+	// none: the Read times out), and writes 200 ms later, the expired read deadline still in place; it clears the
+	// read deadline only before it reads again
+	Poll bool `json:"poll,omitempty"`
 }
 
 func (c06) ID() string    { return "C06" }
@@ -105,6 +109,7 @@ func drawC06(src *vs.Src) *c06Params {
 	if src.Bool(1, 6) {
 		p.ChainPad = 40 + src.Intn(80) // Certificate message of about 15-45 KB
 	}
+	p.Poll = !p.ServerFirst && src.Bool(1, 4)
 	if p.Seg == 2 || src.Bool(1, 2) {
 		// avoid quadratic cost of tiny buffers over large data: make sure one large buffer is in the cycle
 		p.RBuf = append(p.RBuf, 16384)
@@ -201,11 +206,22 @@ func (c06) Run(c *Case, src *vs.Src) *Result {
 			pair.C.Close()
 			return
 		}
+		if p.Poll {
+			pair.C.SetReadDeadline(vs.Now().Add(100 * time.Millisecond))
+			n, err := pair.C.Read(make([]byte, 16))
+			if n != 0 || err == nil || !isTimeout(err) {
+				cs.WriteErr = fmt.Sprintf("poll before any data: Read returned n=%d err=%v, want a timeout", n, err)
+			}
+			vs.Sleep(200 * time.Millisecond)
+		}
 		if !writeAll(pair.C, c2s, &cs) {
 			pair.C.Close()
 			return
 		}
 		cs.CloseErr = pair.C.CloseWrite()
+		if p.Poll {
+			pair.C.SetReadDeadline(time.Time{})
+		}
 		readToEnd(pair.C, p.RBuf, &cs)
 		pair.C.Close()
 	})
